@@ -365,3 +365,36 @@ func TestC20_EnvelopeGrid(t *testing.T) {
 		t.Fatalf("VERIF-INFRA: no envelope at all was accepted")
 	}
 }
+
+// FuzzC20_Envelope (thorough tier): coverage-guided mutation of envelopes,
+// with the classifier oracle inside the target.
+func FuzzC20_Envelope(f *testing.F) {
+	kp := keyFor(icose.EdDSA, 0)
+	for _, p := range []Prof{P1, P2} {
+		claims := baseValid(p, 1).WireBytes()
+		good, _ := icose.SignedToken(kp.Alg, kp.Priv, claims)
+		f.Add(good)
+		f.Add(good[1:])
+		f.Add(append([]byte{0xd1}, good[1:]...))
+		f.Add(append(append([]byte{}, good...), 0x00))
+		for _, pl := range [][]byte{{0xf6}, {0x80}, {0xd8, 0xa0, 0xf6}, {0xa0}, claims[:len(claims)-1], append(append([]byte{}, claims...), 0xa0)} {
+			tok, _ := icose.SignedToken(kp.Alg, kp.Priv, pl)
+			f.Add(tok)
+		}
+		f.Add(icbor.Encode(icbor.Tag(18, icbor.Arr(icbor.Bstr(icose.ProtectedAlg(kp.Alg)), icbor.Map(), icbor.Null(), icbor.Bstr([]byte{1})))))
+		f.Add(icbor.Encode(icbor.Tag(55799, icbor.Tag(18, icbor.Arr(icbor.Bstr(nil), icbor.Map(), icbor.Bstr(claims), icbor.Bstr([]byte{1}))))))
+	}
+	for _, name := range []string{"psa-2_0_0_mac0.bin", "psa-2_0_0_sign1.bin"} {
+		if b, err := os.ReadFile(repoDir() + "/testvectors/tf-m/" + name); err == nil {
+			f.Add(b)
+		}
+	}
+	f.Fuzz(func(t *testing.T, data []byte) {
+		if len(data) > 1<<14 {
+			return
+		}
+		if msg := c20Kind(c20In{Desc: "fuzz", Tok: data}); msg != "" {
+			t.Fatalf("C20 violated: %s\n  token: %x", msg, data)
+		}
+	})
+}
